@@ -2620,7 +2620,9 @@ class AggregateBase(UnitsManaged, Saveable, OpenSystem):
             for i in range(start, dim):
                 ens[i-start] = numpy.real(HH[i,i] - subtract[i-start])
 
-            ne = numpy.exp(-ens/kBT)
+            # only energy differences matter; counting from the lowest energy
+            # keeps the Boltzmann factors from underflowing all together
+            ne = numpy.exp(-(ens - numpy.amin(ens))/kBT)
             sne = numpy.sum(ne)
             rho0_diag = ne/sne
             rho0[start:,start:] = numpy.diag(rho0_diag)
